@@ -45,7 +45,8 @@ pub fn run_cpu(ch: &mut Chooser, ctx: &mut Ctx) {
     let high = envelope::effective_high(fam, k, r);
     let kind = Kind { layer, engine: EngineKind::Default };
     let data_seed = ch.seed64("data.seed");
-    let originals: Vec<Vec<u8>> = (0..k).map(|i| gen_shard(data_seed, 0, i, b)).collect();
+    let data_mode = ch.weighted("cpu.datamode", &[4, 1, 1, 2, 4]) as u8;
+    let originals: Vec<Vec<u8>> = (0..k).map(|i| gen_shard(data_seed, data_mode, i, b)).collect();
     // loss pattern: lose up to r shards
     let lose = 1 + ch.pick_usize("cpu.lose", r.min(k + r - 1));
     let mut all: Vec<(bool, usize)> = (0..k).map(|i| (false, i)).chain((0..r).map(|j| (true, j))).collect();
@@ -210,8 +211,9 @@ fn direct_primitives(seed: u64) -> u64 {
         let count = 1usize << (2 + p.below(4)); // 4..32 shards
         let len64 = 1 + p.below(3) as usize;
         let mut data = vec![[0u8; 64]; count * len64];
+        let lanes = p.below(3) == 0;
         for c in &mut data {
-            p.fill(c);
+            if lanes { crate::common::fill_lanes(&mut p, c) } else { p.fill(c) }
         }
         let size = 1usize << (1 + p.below(u64::from(count.trailing_zeros())));
         let pos = p.below((count - size) as u64 + 1) as usize;
@@ -260,7 +262,7 @@ fn direct_primitives(seed: u64) -> u64 {
         }
         let mut x = vec![[0u8; 64]; len64];
         for c in &mut x {
-            p.fill(c);
+            if lanes { crate::common::fill_lanes(&mut p, c) } else { p.fill(c) }
         }
         let log_m = [0u16, 65535, 65534, p.below(65536) as u16][p.below(4) as usize];
         if misalign {
